@@ -220,6 +220,15 @@ def run(R):
     alphabet = [a for a in ALPHABET if not a.startswith('u2_')] if quick else ALPHABET
     run_bmc_property(R, 'C01', sizes, n1=sizes.J - 1, g1=sizes.G - 1, alphabet=alphabet, depth=depth, asserts=asserts,
                      classify=classify, extra_seqs=DEEP, workers=int(os.environ.get('VERIF_WORKERS', '12')))
+    # operations that arrive BEFORE update 1 is committed (cancel of a job group of the uncommitted update, a second
+    # client's update), then the commit
+    run_bmc_property(R, 'C01', model.Sizes(J=3, G=2, U=2, I=1, A=2, T=2, IC=1), n1=2, g1=1, alphabet=['cancel_group', 'commit1', 'schedule'],
+                     depth=2, asserts=asserts, classify=classify, commit=False,
+                     extra_seqs=[('cancel_group', 'commit1', 'schedule'), ('cancel_group', 'commit1', 'cancel_group'),
+                                 ('cancel_group', 'commit1', 'schedule', 'complete')],
+                     workers=int(os.environ.get('VERIF_WORKERS', '12')))
+    from props import _sqlcommon as sc_
+    sc_.stale_pass(R, 'C01', asserts, classify, seqs=sc_.STALE[:1] if R.tier == 'quick' else sc_.STALE)
 
 
 DEEP = [
